@@ -315,10 +315,11 @@ class Elab:
     def describe(self, e):
         b, m = self.u.split(e.fields["0"])
         name = [k for k, v in self.u.names.items() if v == b]
-        return "%s%s %s" % ({0: "", 1: "const ", 2: "volatile "}[m], name[0] if name else b, e.fields["1"].variant.lower())
+        return "%s%s %s" % ({0: "", 1: "const ", 2: "volatile ", 3: "const row_major ", 4: "const column_major "}[m], name[0] if name else b, e.fields["1"].variant.lower())
 
     def is_const(self, e):
-        return self.u.split(e.fields["0"])[1] == 1
+        import convmodel as _CM
+        return bool(_CM.MODS[self.u.split(e.fields["0"])[1]].get("is_const"))
 
     def is_lvalue(self, e):
         return e.fields["1"].variant == "Lvalue"
